@@ -1,0 +1,8 @@
+//go:build !verif
+// +build !verif
+
+package ledgerstore
+
+// verifCrashPoint marks a persistence point for the crash-recovery checks; it only does
+// something in builds with the "verif" tag (see verif_hooks_on.go).
+func verifCrashPoint(point string) {}
